@@ -149,6 +149,7 @@ func (p *Prog) inlineOverlay() (map[string][]byte, []string) {
 		if !changed {
 			continue
 		}
+		unhoistConds(file)
 		var buf bytes.Buffer
 		if err := format.Node(&buf, fset, file); err != nil {
 			continue
@@ -928,6 +929,7 @@ direct:
 	}
 	// take the simple defers out of the (renamed) body; they run after it
 	var deferred []ast.Stmt
+	deferPrefix := 0 // statements in front of the last simple defer: no return among them (checked above)
 	_, parentIsGo := parent.(*ast.GoStmt)
 	_, parentIsDefer := parent.(*ast.DeferStmt)
 	if simpleDefers && !parentIsGo && !parentIsDefer {
@@ -935,6 +937,7 @@ direct:
 		for _, st := range body.List {
 			if ds, ok := st.(*ast.DeferStmt); ok {
 				deferred = append([]ast.Stmt{&ast.ExprStmt{X: ds.Call}}, deferred...)
+				deferPrefix = len(kept)
 				continue
 			}
 			kept = append(kept, st)
@@ -950,7 +953,10 @@ direct:
 			// deferred calls run: force the labelled form
 			var inner []ast.Stmt
 			if earlyReturn {
-				inner = []ast.Stmt{&ast.LabeledStmt{Label: ast.NewIdent(label), Stmt: &ast.SwitchStmt{Body: &ast.BlockStmt{List: []ast.Stmt{&ast.CaseClause{Body: body.List}}}}}}
+				// what precedes the defers stays outside the wrapper, so that the
+				// locals the deferred calls name are still in scope after it
+				out = append(out, body.List[:deferPrefix]...)
+				inner = []ast.Stmt{&ast.LabeledStmt{Label: ast.NewIdent(label), Stmt: &ast.SwitchStmt{Body: &ast.BlockStmt{List: []ast.Stmt{&ast.CaseClause{Body: body.List[deferPrefix:]}}}}}}
 			} else {
 				inner = body.List
 			}
@@ -1348,4 +1354,94 @@ func (p *Prog) pruneImports(fset *token.FileSet, file *ast.File) {
 			astutil.DeleteImport(fset, file, path)
 		}
 	}
+}
+
+// unhoistConds puts a one-expression predicate back into the condition it
+// was hoisted out of:
+//
+//	var hoisted_i1 bool; { hoisted_i1 = EXPR }; if ... hoisted_i1 ... { }
+//
+// becomes `if ... (EXPR) ... { }` when the temporary is used exactly once, in
+// the condition of the if statement that follows directly (no init statement).
+// The hoist had established that nothing impure is evaluated before the call
+// inside that condition, so EXPR is evaluated at the same point as before; the
+// point of the rewrite is that the edges of the if statement carry the atoms of
+// EXPR again (short-circuit expansion) instead of an opaque boolean.
+func unhoistConds(file *ast.File) {
+	rewriteList := func(list []ast.Stmt) []ast.Stmt {
+		for i := 0; i+2 < len(list); i++ {
+			ds, ok := list[i].(*ast.DeclStmt)
+			if !ok {
+				continue
+			}
+			gd, ok := ds.Decl.(*ast.GenDecl)
+			if !ok || gd.Tok != token.VAR || len(gd.Specs) != 1 {
+				continue
+			}
+			vs, ok := gd.Specs[0].(*ast.ValueSpec)
+			if !ok || len(vs.Names) != 1 || len(vs.Values) != 0 || !strings.HasPrefix(vs.Names[0].Name, "hoisted_i") {
+				continue
+			}
+			name := vs.Names[0].Name
+			blk, ok := list[i+1].(*ast.BlockStmt)
+			if !ok || len(blk.List) != 1 {
+				continue
+			}
+			as, ok := blk.List[0].(*ast.AssignStmt)
+			if !ok || as.Tok != token.ASSIGN || len(as.Lhs) != 1 || len(as.Rhs) != 1 {
+				continue
+			}
+			if id, ok := as.Lhs[0].(*ast.Ident); !ok || id.Name != name {
+				continue
+			}
+			ifs, ok := list[i+2].(*ast.IfStmt)
+			if !ok || ifs.Init != nil {
+				continue
+			}
+			uses, inCond := 0, 0
+			for j := i + 2; j < len(list); j++ {
+				ast.Inspect(list[j], func(n ast.Node) bool {
+					if id, ok := n.(*ast.Ident); ok && id.Name == name {
+						uses++
+					}
+					return true
+				})
+			}
+			ast.Inspect(ifs.Cond, func(n ast.Node) bool {
+				if id, ok := n.(*ast.Ident); ok && id.Name == name {
+					inCond++
+				}
+				return true
+			})
+			if uses != 1 || inCond != 1 {
+				continue
+			}
+			repl := &ast.ParenExpr{X: as.Rhs[0]}
+			if id, ok := ifs.Cond.(*ast.Ident); ok && id.Name == name {
+				ifs.Cond = as.Rhs[0]
+			} else {
+				ifs.Cond = astutil.Apply(ifs.Cond, func(c *astutil.Cursor) bool {
+					if id, ok := c.Node().(*ast.Ident); ok && id.Name == name {
+						c.Replace(repl)
+						return false
+					}
+					return true
+				}, nil).(ast.Expr)
+			}
+			list = append(list[:i:i], list[i+2:]...)
+			i--
+		}
+		return list
+	}
+	ast.Inspect(file, func(n ast.Node) bool {
+		switch x := n.(type) {
+		case *ast.BlockStmt:
+			x.List = rewriteList(x.List)
+		case *ast.CaseClause:
+			x.Body = rewriteList(x.Body)
+		case *ast.CommClause:
+			x.Body = rewriteList(x.Body)
+		}
+		return true
+	})
 }
